@@ -109,23 +109,26 @@ Print Assumptions C01_feature_keyline_roundtrip_partial.
    for every non-empty table whose features have a key of feature-key
    characters narrower than the location column, a printable location (C06)
    and qualifiers that are written quoted (registered as quoted, or unknown to
-   the registry), with snake-case names, values without a double quote (K10)
-   or a backslash (K13) and without a line that starts like a continuation
-   prefix; Props in the normal form Props.Add produces (distinct names, at
-   least one value each).  The table may end the input or be followed by a
-   newline and any text that is neither a key line nor a qualifier line (e.g.
-   ORIGIN).  The result is the SAME list of features (keys, locations, Props),
-   and the registry has learned the unknown names as quoted.  Proved on the
-   faithful pars model through the key-line parser, pars.Quoted, the
-   continuation-prefix stripping, pars.Many with the registry threaded through
+   the registry: values without a double quote (K10) or a backslash (K13) and
+   without a line that starts like a continuation prefix) or literal
+   (registered as literal, e.g. /codon_start=1: one-line values), with
+   snake-case names; Props in the normal form Props.Add produces (distinct
+   names, at least one value each).  The table may end the input or be
+   followed by a newline and any text that does not start with the key or the
+   qualifier indentation (e.g. ORIGIN).  The result is the SAME list of
+   features (keys, locations, Props), and the registry has learned the unknown
+   names as quoted.  Proved on the faithful pars model through the key-line
+   parser, pars.Quoted, the continuation-prefix stripping, the look-ahead loop
+   of the literal value parser, pars.Many with the registry threaded through
    it, and the first-line special case of INSDCTableParser.
-   PARTIAL: literal (/codon_start=1) and toggle (/pseudo) qualifiers are
-   decided by the correspondence and the oracle. *)
+   PARTIAL: toggle qualifiers (/pseudo: the reader stores the line end as the
+   value) and multi-line literal values are decided by the correspondence and
+   the oracle. *)
 From GTS Require Import Seq QualRT PropsRT FeatRT TableRT.
 Theorem C01_feature_table_roundtrip_partial : forall r np depth, 0 <= np -> np < depth ->
   forall f t last post reg W,
   Forall (fok r np depth) (f :: t) -> Forall (fun g => pnormal (fprops g)) (f :: t) ->
-  names_ok reg (f :: t) -> eol_post last post -> stops np depth post ->
+  names_ok r reg (f :: t) -> eol_post last post -> stops np depth post ->
   table_show r (kprefix np) depth (f :: t) = Ok W ->
   forall o e a (fr : frame) k, exists o' e' a',
     table_parser [] reg (mkst ((W ++ last) ++ post) o e a (fr :: k)) =
@@ -136,14 +139,15 @@ Print Assumptions C01_feature_table_roundtrip_partial.
 (* the hypotheses are met by a concrete table (two features, a reverse-strand
    join, a value of two lines, a qualifier name unknown to the registry,
    followed by ORIGIN), and on it the round trip is also computed *)
-From GTS Require Import Loc LocParse StripProofs.
+From GTS Require Import Loc LocParse StripProofs ParsLemmas.
 Definition ex_gene : list byte := [103;101;110;101].
 Definition ex_note : list byte := [110;111;116;101].
 Definition ex_xyz : list byte := [120;121;122].
+Definition ex_codon : list byte := [99;111;100;111;110;95;115;116;97;114;116].
 Definition ex_ff : list feature :=
   [mkfeat ex_gene (Ranged 0 9 false false) [[ex_gene; [97;98;99]]];
    mkfeat [67;68;83] (Complemented (Joined [Ranged 2 5 true false; Ranged 7 9 false false]))
-          [[ex_note; [116;119;111;10;108;105;110;101;115]; [98]]; [ex_xyz; [113]]]].
+          [[ex_note; [116;119;111;10;108;105;110;101;115]; [98]]; [ex_xyz; [113]]; [ex_codon; [49]]]].
 Definition ex_post : list byte := [79;82;73;71;73;78;10].
 
 Lemma ex_coord n : 0 <= n <= 1000 -> coord n.
@@ -151,25 +155,40 @@ Proof. unfold coord, int64_max. lia. Qed.
 
 Example table_hypotheses_met :
   Forall (fok default_registry 5 21) ex_ff /\ Forall (fun g => pnormal (fprops g)) ex_ff /\
-  names_ok default_registry ex_ff /\ eol_post [10] ex_post /\ stops 5 21 ex_post.
+  names_ok default_registry default_registry ex_ff /\ eol_post [10] ex_post /\ stops 5 21 ex_post.
 Proof.
+  assert (Hsn : forall n, n <> [] -> forallb is_snake n = true -> snake n).
+  { intros n H1 H2. split; [exact H1|]. rewrite forallb_forall in H2. apply Forall_forall. exact H2. }
+  assert (Hpl : forall v, forallb (fun c => negb (c =? 34) && negb (c =? 92)) v = true -> plain v).
+  { intros v H. rewrite forallb_forall in H. apply Forall_forall. intros c Hc. specialize (H c Hc).
+    apply andb_true_iff in H as [H1 H2]. apply negb_true_iff in H1, H2. apply Z.eqb_neq in H1, H2. auto. }
+  assert (Hq1 : forall n v, n <> [] -> forallb is_snake n = true -> quoted_type default_registry n ->
+                 forallb (fun c => negb (c =? 34) && negb (c =? 92)) v = true -> forallb (fun c => negb (c =? 10)) v = true ->
+                 qok default_registry (qprefix 21) (n, v)).
+  { intros n v H1 H2 H3 H4 H5. split; [now apply Hsn|]. left. split; [exact H3|]. split; [now apply Hpl|].
+    apply no_occ_no10. rewrite forallb_forall in H5. apply Forall_forall. intros c Hc. specialize (H5 c Hc).
+    apply negb_true_iff, Z.eqb_neq in H5. exact H5. }
   split; [|split; [|split; [|split]]].
-  - unfold ex_ff, fok, qok, featkey, snake, quoted_type.
-    repeat (match goal with
-            | |- Forall _ (_ :: _) => apply Forall_cons
-            | |- Forall _ [] => apply Forall_nil
-            | |- _ /\ _ => split
-            | |- True => exact I
-            end; cbn [fkey floc fprops quals flat_map map app fst snd printable]).
-    all: try discriminate; try (vm_compute; reflexivity); try (apply ex_coord; lia); try lia.
-    all: try (apply no_occ_no10; repeat constructor; discriminate).
-    all: try (left; vm_compute; reflexivity); try (right; vm_compute; reflexivity).
-    all: try (repeat constructor; discriminate).
-    all: try (intros j; unfold occurs_at; do 10 (destruct j as [|j]; [reflexivity|]); destruct j; reflexivity).
-  - repeat constructor; cbn; try (intros [H|H]; [discriminate H|exact H]); try tauto; eauto.
-  - intros f q Hf Hq. unfold ex_ff in Hf. cbn in Hf.
-    destruct Hf as [<-|[<-|[]]]; cbn in Hq;
-      repeat (destruct Hq as [<-|Hq]; [first [left; vm_compute; reflexivity|right; vm_compute; reflexivity]|]); contradiction.
+  - unfold ex_ff. repeat apply Forall_cons; try apply Forall_nil.
+    + split; [split; [discriminate|repeat constructor]|]. split; [vm_compute; reflexivity|].
+      split; [cbn [floc printable]; repeat split; try (apply ex_coord); lia|].
+      cbn [quals fprops flat_map map app]. repeat apply Forall_cons; try apply Forall_nil.
+      apply Hq1; try discriminate; try reflexivity. left. vm_compute. reflexivity.
+    + split; [split; [discriminate|repeat constructor]|]. split; [vm_compute; reflexivity|].
+      split; [cbn [floc printable]; repeat split; try (apply ex_coord); try lia; vm_compute; reflexivity|].
+      cbn [quals fprops flat_map map app]. repeat apply Forall_cons; try apply Forall_nil.
+      * (* a value of two lines: the second does not start like a continuation *)
+        split; [apply Hsn; [discriminate|reflexivity]|]. left. split; [left; vm_compute; reflexivity|].
+        split; [apply Hpl; reflexivity|].
+        intros j; unfold occurs_at; do 10 (destruct j as [|j]; [reflexivity|]); destruct j; reflexivity.
+      * apply Hq1; try discriminate; try reflexivity. left. vm_compute. reflexivity.
+      * apply Hq1; try discriminate; try reflexivity. right. vm_compute. reflexivity.
+      * (* a literal qualifier *)
+        split; [apply Hsn; [discriminate|reflexivity]|]. right. split; [vm_compute; reflexivity|].
+        repeat constructor; discriminate.
+  - unfold ex_ff. repeat apply Forall_cons; try apply Forall_nil;
+      (split; [cbn [fprops map entry_name]; repeat constructor; cbn [In]; intuition discriminate|repeat constructor; eauto]).
+  - intros f q _ _. split; auto.
   - left. reflexivity.
   - split; vm_compute; reflexivity.
 Qed.
